@@ -143,7 +143,36 @@ Theorem C05_done_means_delivered_server_to_client : forall e P k t0 th cli srv p
 Proof. exact srv_to_cli_done_means_delivered. Qed.
 Print Assumptions C05_done_means_delivered_server_to_client.
 
-(*    Every prefix of an admissible history is admissible, so the three statements speak about every
+(*    Custody in the joint model: as long as the payload has not been handed to the peer application,
+      the sender's RetrySender is not done and the message is in the outgoing queue or scheduled for
+      a retry (pending_retry_msg) with that RetrySender attached. *)
+Theorem C05_sender_holds_until_delivered_client_to_server : forall e P k t0 th cli srv p ucb,
+  live_start k t0 cli srv -> lenv_ok e -> len p <= e_max_payload e -> forall hs,
+  hvalid e P SCli th (after_send e SCli cli srv p ucb t0) hs ->
+  let n := trun e P (after_send e SCli cli srv p ucb t0) hs in
+  let rs := Retry (c_next_rid cli) (seq_succ (c_seq_msg cli)) APP p ucb in
+  c_incoming (t_srv n) = c_incoming srv ->
+  zmem (c_next_rid cli) (c_done (t_cli n)) = false /\
+  ((exists m, In m (c_outgoing (t_cli n)) /\ m_seq m = seq_succ (c_seq_msg cli) /\ m_payload m = p
+              /\ m_retry m = RTimeout /\ m_cb m = Some rs)
+   \/ (exists m, In (seq_succ (c_seq_msg cli), m) (c_pretry_msg (t_cli n)) /\ m_payload m = p /\ m_cb m = Some rs)).
+Proof. exact cli_to_srv_custody. Qed.
+Print Assumptions C05_sender_holds_until_delivered_client_to_server.
+
+Theorem C05_sender_holds_until_delivered_server_to_client : forall e P k t0 th cli srv p ucb,
+  live_start k t0 srv cli -> lenv_ok e -> len p <= e_max_payload e -> forall hs,
+  hvalid e P SSrv th (after_send e SSrv cli srv p ucb t0) hs ->
+  let n := trun e P (after_send e SSrv cli srv p ucb t0) hs in
+  let rs := Retry (c_next_rid srv) (seq_succ (c_seq_msg srv)) APP p ucb in
+  c_incoming (t_cli n) = c_incoming cli ->
+  zmem (c_next_rid srv) (c_done (t_srv n)) = false /\
+  ((exists m, In m (c_outgoing (t_srv n)) /\ m_seq m = seq_succ (c_seq_msg srv) /\ m_payload m = p
+              /\ m_retry m = RTimeout /\ m_cb m = Some rs)
+   \/ (exists m, In (seq_succ (c_seq_msg srv), m) (c_pretry_msg (t_srv n)) /\ m_payload m = p /\ m_cb m = Some rs)).
+Proof. exact srv_to_cli_custody. Qed.
+Print Assumptions C05_sender_holds_until_delivered_server_to_client.
+
+(*    Every prefix of an admissible history is admissible, so these statements speak about every
       moment of a history; and the executable checks used by the examples and by the correspondence
       unit live_pair_run imply the stated hypotheses. *)
 Theorem C05_executable_hypotheses : forall e P sd th n vs k t0 x y now,
